@@ -77,7 +77,7 @@ def check_case(case, rec):
             raise Violation(f"token ({s},{e}) carries {len(fr)} frames", case)
         for k, f in enumerate(fr):
             want = frames[s + k]
-            same = (f is want) if kind == "obj" else (f == want)
+            same = (f is want) if kind in ("obj", "np") else (f == want)
             if not same:
                 raise Violation(
                     f"token ({s},{e}): frame {k} is {f!r}, stream position {s + k} holds {want!r}",
